@@ -1914,3 +1914,104 @@ package bpmn
 //@   requires !closed(waitIsOver)
 //@   ensures [closes-only-after-the-wait-returned] evlen == old(evlen) + 2 && isWgWait(ev(old(evlen))) && evch(ev(old(evlen))) == sp.flowWaitGroup &&
 //@             isClose(ev(old(evlen) + 1)) && evch(ev(old(evlen) + 1)) == waitIsOver
+
+// ---------------------------------------------------------------------------
+// The request protocol of the event nodes and of the inclusive and event-based gateways (the parallel and exclusive
+// gateways, the task, the harness and the sub-process have theirs above): every call queues exactly one request
+// carrying a reply channel of its own and the asking token, as its last action; the node's message loop is started by
+// the first request only, together with the one sender registration that loop releases when it ends.
+//@ func (*catchEvent).NextAction
+//@   prop C01 C11 C07
+//@   requires evt.wiring != nil
+//@   ensures [fresh-reply-channel] fresh(result) && result != nil
+//@   ensures [one-request-sent-last] isSend(ev(evlen - 1)) && evch(ev(evlen - 1)) == evt.mch &&
+//@             is(evval(ev(evlen - 1)), nextActionMessage) &&
+//@             evval(ev(evlen - 1)).(nextActionMessage).response == result &&
+//@             evval(ev(evlen - 1)).(nextActionMessage).flow == flow
+//@   ensures [exactly-one-request-per-call] count(Send, nextActionMessage) == old(count(Send, nextActionMessage)) + 1
+//@   ensures [its-goroutine-is-started-at-most-once] count(Spawn, code("(*catchEvent).run")) <= old(count(Spawn, code("(*catchEvent).run"))) + 1
+//@   ensures [a-sender-is-registered-only-together-with-the-goroutine-that-releases-it] old(oncedone(mu(evt.once))) ==>
+//@             count(Call, code("tracing|ITracer.RegisterSender")) == old(count(Call, code("tracing|ITracer.RegisterSender"))) &&
+//@             count(Spawn, code("(*catchEvent).run")) == old(count(Spawn, code("(*catchEvent).run")))
+//@   ensures [a-first-request-registers-exactly-one-sender-and-starts-the-loop] !old(oncedone(mu(evt.once))) ==>
+//@             count(Call, code("tracing|ITracer.RegisterSender")) == old(count(Call, code("tracing|ITracer.RegisterSender"))) + 1 &&
+//@             count(Spawn, code("(*catchEvent).run")) == old(count(Spawn, code("(*catchEvent).run"))) + 1
+//@ func (*startEvent).NextAction
+//@   prop C01 C07
+//@   requires evt.wiring != nil
+//@   ensures [fresh-reply-channel] fresh(result) && result != nil
+//@   ensures [one-request-sent-last] isSend(ev(evlen - 1)) && evch(ev(evlen - 1)) == evt.mch &&
+//@             is(evval(ev(evlen - 1)), nextActionMessage) &&
+//@             evval(ev(evlen - 1)).(nextActionMessage).response == result &&
+//@             evval(ev(evlen - 1)).(nextActionMessage).flow == flow
+//@   ensures [exactly-one-request-per-call] count(Send, nextActionMessage) == old(count(Send, nextActionMessage)) + 1
+//@   ensures [its-goroutine-is-started-at-most-once] count(Spawn, code("(*startEvent).run")) <= old(count(Spawn, code("(*startEvent).run"))) + 1
+//@   ensures [a-sender-is-registered-only-together-with-the-goroutine-that-releases-it] old(oncedone(mu(evt.once))) ==>
+//@             count(Call, code("tracing|ITracer.RegisterSender")) == old(count(Call, code("tracing|ITracer.RegisterSender"))) &&
+//@             count(Spawn, code("(*startEvent).run")) == old(count(Spawn, code("(*startEvent).run")))
+//@   ensures [a-first-request-registers-exactly-one-sender-and-starts-the-loop] !old(oncedone(mu(evt.once))) ==>
+//@             count(Call, code("tracing|ITracer.RegisterSender")) == old(count(Call, code("tracing|ITracer.RegisterSender"))) + 1 &&
+//@             count(Spawn, code("(*startEvent).run")) == old(count(Spawn, code("(*startEvent).run"))) + 1
+//@ func (*throwEvent).NextAction
+//@   prop C01 C07
+//@   requires evt.wiring != nil
+//@   ensures [fresh-reply-channel] fresh(result) && result != nil
+//@   ensures [one-request-sent-last] isSend(ev(evlen - 1)) && evch(ev(evlen - 1)) == evt.mch &&
+//@             is(evval(ev(evlen - 1)), nextActionMessage) &&
+//@             evval(ev(evlen - 1)).(nextActionMessage).response == result &&
+//@             evval(ev(evlen - 1)).(nextActionMessage).flow == flow
+//@   ensures [exactly-one-request-per-call] count(Send, nextActionMessage) == old(count(Send, nextActionMessage)) + 1
+//@   ensures [its-goroutine-is-started-at-most-once] count(Spawn, code("(*throwEvent).run")) <= old(count(Spawn, code("(*throwEvent).run"))) + 1
+//@   ensures [a-sender-is-registered-only-together-with-the-goroutine-that-releases-it] old(oncedone(mu(evt.once))) ==>
+//@             count(Call, code("tracing|ITracer.RegisterSender")) == old(count(Call, code("tracing|ITracer.RegisterSender"))) &&
+//@             count(Spawn, code("(*throwEvent).run")) == old(count(Spawn, code("(*throwEvent).run")))
+//@   ensures [a-first-request-registers-exactly-one-sender-and-starts-the-loop] !old(oncedone(mu(evt.once))) ==>
+//@             count(Call, code("tracing|ITracer.RegisterSender")) == old(count(Call, code("tracing|ITracer.RegisterSender"))) + 1 &&
+//@             count(Spawn, code("(*throwEvent).run")) == old(count(Spawn, code("(*throwEvent).run"))) + 1
+//@ func (*endEvent).NextAction
+//@   prop C01 C02 C07
+//@   requires evt.wiring != nil
+//@   ensures [fresh-reply-channel] fresh(result) && result != nil
+//@   ensures [one-request-sent-last] isSend(ev(evlen - 1)) && evch(ev(evlen - 1)) == evt.mch &&
+//@             is(evval(ev(evlen - 1)), nextActionMessage) &&
+//@             evval(ev(evlen - 1)).(nextActionMessage).response == result
+//@   ensures [exactly-one-request-per-call] count(Send, nextActionMessage) == old(count(Send, nextActionMessage)) + 1
+//@   ensures [its-goroutine-is-started-at-most-once] count(Spawn, code("(*endEvent).run")) <= old(count(Spawn, code("(*endEvent).run"))) + 1
+//@   ensures [a-sender-is-registered-only-together-with-the-goroutine-that-releases-it] old(oncedone(mu(evt.once))) ==>
+//@             count(Call, code("tracing|ITracer.RegisterSender")) == old(count(Call, code("tracing|ITracer.RegisterSender"))) &&
+//@             count(Spawn, code("(*endEvent).run")) == old(count(Spawn, code("(*endEvent).run")))
+//@   ensures [a-first-request-registers-exactly-one-sender-and-starts-the-loop] !old(oncedone(mu(evt.once))) ==>
+//@             count(Call, code("tracing|ITracer.RegisterSender")) == old(count(Call, code("tracing|ITracer.RegisterSender"))) + 1 &&
+//@             count(Spawn, code("(*endEvent).run")) == old(count(Spawn, code("(*endEvent).run"))) + 1
+//@ func (*eventBasedGateway).NextAction
+//@   prop C01 C06 C07
+//@   requires gw.wiring != nil
+//@   ensures [fresh-reply-channel] fresh(result) && result != nil
+//@   ensures [one-request-sent-last] isSend(ev(evlen - 1)) && evch(ev(evlen - 1)) == gw.mch &&
+//@             is(evval(ev(evlen - 1)), nextActionMessage) &&
+//@             evval(ev(evlen - 1)).(nextActionMessage).response == result &&
+//@             evval(ev(evlen - 1)).(nextActionMessage).flow == flow
+//@   ensures [exactly-one-request-per-call] count(Send, nextActionMessage) == old(count(Send, nextActionMessage)) + 1
+//@   ensures [its-goroutine-is-started-at-most-once] count(Spawn, code("(*eventBasedGateway).run")) <= old(count(Spawn, code("(*eventBasedGateway).run"))) + 1
+//@   ensures [a-sender-is-registered-only-together-with-the-goroutine-that-releases-it] old(oncedone(mu(gw.once))) ==>
+//@             count(Call, code("tracing|ITracer.RegisterSender")) == old(count(Call, code("tracing|ITracer.RegisterSender"))) &&
+//@             count(Spawn, code("(*eventBasedGateway).run")) == old(count(Spawn, code("(*eventBasedGateway).run")))
+//@   ensures [a-first-request-registers-exactly-one-sender-and-starts-the-loop] !old(oncedone(mu(gw.once))) ==>
+//@             count(Call, code("tracing|ITracer.RegisterSender")) == old(count(Call, code("tracing|ITracer.RegisterSender"))) + 1 &&
+//@             count(Spawn, code("(*eventBasedGateway).run")) == old(count(Spawn, code("(*eventBasedGateway).run"))) + 1
+//@ func (*inclusiveGateway).NextAction
+//@   prop C01 C05 C07
+//@   requires gw.wiring != nil
+//@   ensures [fresh-reply-channel] fresh(result) && result != nil
+//@   ensures [one-request-sent-last] isSend(ev(evlen - 1)) && evch(ev(evlen - 1)) == gw.mch &&
+//@             is(evval(ev(evlen - 1)), nextActionMessage) &&
+//@             evval(ev(evlen - 1)).(nextActionMessage).response == result &&
+//@             evval(ev(evlen - 1)).(nextActionMessage).flow == flow
+//@   ensures [exactly-one-request-per-call] count(Send, nextActionMessage) == old(count(Send, nextActionMessage)) + 1
+//@   ensures [its-goroutine-is-started-at-most-once] count(Spawn, code("(*inclusiveGateway).run")) <= old(count(Spawn, code("(*inclusiveGateway).run"))) + 1
+//@   ensures [a-sender-is-registered-only-together-with-the-goroutine-that-releases-it] old(oncedone(mu(gw.once))) ==>
+//@             count(Call, code("tracing|ITracer.RegisterSender")) == old(count(Call, code("tracing|ITracer.RegisterSender"))) &&
+//@             count(Spawn, code("(*inclusiveGateway).run")) == old(count(Spawn, code("(*inclusiveGateway).run")))
+//@   ensures [a-first-request-registers-exactly-one-sender-and-starts-the-loop] !old(oncedone(mu(gw.once))) ==>
+//@             count(Call, code("tracing|ITracer.RegisterSender")) == old(count(Call, code("tracing|ITracer.RegisterSender"))) + 1 &&
+//@             count(Spawn, code("(*inclusiveGateway).run")) == old(count(Spawn, code("(*inclusiveGateway).run"))) + 1
